@@ -347,7 +347,7 @@ def body (m : Module) : Str :=
     n.ruleKind ++ L "::R" ++ natToStr i ++ L " => " ++ reduceFnName n i ++ L "(states, nodes),")) ++
   L "\n    }\n}\n\n" ++
   joinNlNl (m.reduceFns.map (reduceFnSrc n)) ++
-  L "\n\nimpl " ++ n.quasiterminalKind ++ L " {\n    fn from_quasiterminal(quasiterminal: &" ++ n.quasiterminal ++ L ") -> Self {\n        match quasiterminal {\n            " ++ n.quasiterminal ++ L "::Terminal(terminal) => Self::from_terminal(terminal),\n            " ++ n.quasiterminal ++ L "::" ++ n.eof ++ L " => Self::" ++ n.eof ++ L ",\n        }\n    }\n\n    fn from_terminal(terminal: &" ++ T ++ L ") -> Self {\n        match terminal {\n" ++
+  L "\n\nimpl " ++ n.quasiterminalKind ++ L " {\n    fn from_quasiterminal(quasiterminal: &" ++ n.quasiterminal ++ L ") -> Self {\n        match quasiterminal {\n            " ++ n.quasiterminal ++ L "::Terminal(terminal) => Self::from_terminal(terminal),\n            " ++ n.quasiterminal ++ L "::" ++ n.eof ++ L " => Self::" ++ n.eof ++ L ",\n        }\n    }\n\n    fn from_terminal(terminal: &" ++ T ++ L ") -> Self {\n        match " ++ (if m.tenumVariants.isEmpty then L "*terminal" else L "terminal") ++ L " {\n" ++
   indent 3 (joinNl (m.tenumVariants.map fun (v, _) => T ++ L "::" ++ v ++ L "(_) => Self::" ++ v ++ L ",")) ++
   L "\n        }\n    }\n}\n\nimpl " ++ n.node ++ L " {\n    fn from_terminal(terminal: " ++ T ++ L ") -> Self {\n        match terminal {\n" ++
   indent 3 (joinNl (m.tenumVariants.map fun (v, _) => T ++ L "::" ++ v ++ L "(t) => Self::" ++ v ++ L "(t),")) ++
